@@ -47,3 +47,28 @@ FAMILIES["C03"] = dict(
                 "unary minus, the lazy conditional with a failing unchosen branch, range limits, exact dyadic arithmetic, and (thorough) the nested depth-2 fragment; every cell is replayed and validated."),
     level_note=_SEM_NOTE + " IEEE-754 rounding of inexact intermediate results, subnormals, the sign of zero and magnitudes beyond 1e9 are outside the exact-rational model (DESIGN.md section 7).",
 )
+
+_TOTAL_NOTE = ("Trusted: the isolation worker's wall-clock limit (3 s per case, ~1000x the slowest legitimate case) as the observation of non-termination; "
+               "recover() around Compile/Eval as the observation of a panic. Exhaustive within the enumerated programs only; seeded generators sample deeper programs.")
+
+FAMILIES["C09"] = dict(
+    famtag="C09",
+    g=[G("MC_C09", "MC_C09_quick.cfg", "MC_C09_thorough.cfg")],
+    v=[dict(profile="mix", n={"quick": 6000, "thorough": 120000}, args=["-nulls"]),
+       dict(profile="calls", n={"quick": 2000, "thorough": 40000}, args=["-nulls"])],
+    rule="a case is a (program, input) pair; non-trivial when the real code returned a value or an error and the specification pinned that outcome; distinct by program text and input",
+    level_text=("Eval's outcome domain in the specification is closed (value | no value | error): the TLA+ evaluator is total, so a panic, a hang or a crash is never a step of the Eval action and trace "
+                "validation rejects it. TLC enumerates type-chaotic programs - all 60 built-ins x every arity 0..2 (3 thorough) x 18 argument expressions of every kind incl. functions, nested arrays and missing values in "
+                "every position, plus functions used as data in paths/wildcards/predicates/sort keys/group keys - each run in the isolation worker under a wall-clock limit; seeded generators add deeper ill-typed programs over inputs with nulls."),
+    level_note=_TOTAL_NOTE,
+)
+FAMILIES["C10"] = dict(
+    famtag="C10",
+    g=[G("MC_C09", "MC_C09_quick.cfg", "MC_C09_thorough.cfg")],
+    v=[dict(profile="mix", n={"quick": 6000, "thorough": 120000}, args=["-nulls"]),
+       dict(profile="calls", n={"quick": 2000, "thorough": 40000})],
+    level_text=("ResultsAreJson and the EvalBytes action (= Encode o Eval o Decode) are stated on the specification's outcome domain: a value that cannot be projected onto the JSON value domain (an internal type, a "
+                "non-finite number), a result that does not marshal or does not read back as the same value, an EvalBytes outcome that differs from Eval's, or 'no value' reported otherwise than as ErrUndefined is rejected "
+                "by trace validation on every recorded step (TLC-enumerated type-chaotic programs and seeded ones)."),
+    level_note=_TOTAL_NOTE + " The projection (harness/jh/value.go) is the definition of 'JSON-representable' used by the check.",
+)
